@@ -104,7 +104,7 @@ func C06(tier rt.Tier) int {
 		us = append(us, universe{name: "chain3-late-block-hash", parents: []int{-1, 0, 1}, keys: []string{"k"}, txns: 1, kinds: []int{0}, depth: 40, lateHash: true})
 		us = append(us, universe{name: "fork-statecache-remove", parents: []int{-1, 0, 0}, keys: []string{"k"}, txns: 1, kinds: []int{0}, depth: 40, scRemove: true})
 	} else {
-		per = 90 * time.Second
+		per = 30 * time.Second
 		for i, s := range shapes(4) {
 			us = append(us, universe{name: fmt.Sprintf("4blocks-shape%d", i), parents: s, keys: []string{"k"}, txns: 1, kinds: []int{0}, depth: 60})
 		}
@@ -113,7 +113,11 @@ func C06(tier rt.Tier) int {
 		}
 	}
 	for _, u := range us {
-		runUniverse(rep, u, time.Now().Add(per))
+		b := per
+		if tier == rt.Quick && (len(u.parents) > 3 || u.txns > 1) {
+			b = 3 * per
+		}
+		runUniverse(rep, u, time.Now().Add(b))
 	}
 	capacityScenarios(rep)
 	rep.Set("dedup", haveDump)
@@ -142,7 +146,7 @@ func C07(tier rt.Tier) int {
 		lh.lateHash = true
 		us = append(us, lh)
 	} else {
-		per = 90 * time.Second
+		per = 30 * time.Second
 		for i, s := range shapes(4) {
 			us = append(us, mk(fmt.Sprintf("4blocks-shape%d-all-kinds", i), s, []string{"k"}, 1, []int{1, 2, 3, 4}))
 		}
